@@ -109,7 +109,7 @@ class FakeCluster:
         self.requeue_calls = []
         self.verdict_plan = None  # fn(job) -> list of verdicts
         self.errors = []  # protocol violations by the client (bad argv ...)
-        self.max_lag = 2
+        self.max_lag = ch.pick([0, 2, 2, 4], "max-lag")
 
     # ------------------------------------------------------------------ entry
     async def exec(self, *cmd, stdout=None, stderr=None, **kw):
@@ -372,9 +372,11 @@ class FakeCluster:
         if job is None or job.state in ("PENDING", "RUNNING"):
             return 1, "", f"error: job id {jid} not found\n"
         if job.acct_lag > 0:
+            # the accounting record of a finished job is not there yet: real qacct says
+            # "error: job id N not found" exactly as for a job that is still running
             job.acct_lag -= 1
             self.env.sim.fault("accounting_lag")
-            return 0, "", ""
+            return 1, "", f"error: job id {jid} not found\n"
         if job.state in ("EVICTED", "CANCELLED", "TIMEOUT", "PREEMPTED", "NODE_FAIL"):
             return 0, f"jobnumber {job.id}\nfailed 100 : assumedly after job\nexit_status 137\n", ""
         # a job that ran and exited non-zero has failed=0 (no scheduler-level failure)
